@@ -135,6 +135,7 @@ func c12Run(r *Run, start, preamble string) {
 				do(MkReceive(UserB.Str, in, Attest(in, signers), "burn(0,5,9)"))
 				do(MkSendWithCaller(UserB.Str, DomAvax, distinct32(0x28), []byte("x"), distinct32(0x29)))
 				do(AdminTxs[4].Make(Owner.Str)) // max body size 9000
+				do(Act("setMaxBurnAmountPerMessage(uusdc,1000) by A3", &cctptypes.MsgSetMaxBurnAmountPerMessage{From: TokenCtl.Str, LocalToken: "uusdc", Amount: math.NewInt(1000)}))
 			}
 			m := c12Model{}
 			if start[0] == 'T' {
